@@ -80,7 +80,7 @@ class Probe(BaseNode):
 
     def init_params(self, rng=None, graph_state=None):
         # only when the check asks for it (C09 params paths): params drawn from the rng handed to init_params, and used by the step
-        if not getattr(self, "rng_params", False): return super().init_params(rng, graph_state)
+        if not (getattr(self, "rng_params", False) or getattr(self, "adaptive_params", False)): return super().init_params(rng, graph_state)
         w = jnp.asarray(jax.random.key_data(rng) if jnp.issubdtype(rng.dtype, jax.dtypes.prng_key) else rng).reshape(-1)[-1] % 97
         return Out(jnp.asarray(w, dtype=jnp.int32).reshape(1), jnp.array([0.0], dtype=jnp.float32))
 
@@ -90,7 +90,7 @@ class Probe(BaseNode):
     def step(self, ss):
         tsq = jnp.round(ss.ts * 64).astype(jnp.int32)
         acc = 7 * ss.state.a[0] + 3 * ss.seq + 5 * tsq
-        if getattr(self, "rng_params", False): acc = acc + 11 * ss.params.a[0]
+        if getattr(self, "rng_params", False) or getattr(self, "adaptive_params", False): acc = acc + 11 * ss.params.a[0]
         for name in sorted(ss.inputs.keys()):
             i = ss.inputs[name]
             w = i.seq.shape[0]
@@ -112,6 +112,9 @@ class Probe(BaseNode):
         sq = jnp.asarray(ss.seq, dtype=jnp.int32)
         fv = jnp.where(sq % 7 == 3, jnp.nan, jnp.where(sq % 11 == 5, jnp.inf, 0.25 * sq.astype(jnp.float32) + self.nid)).astype(jnp.float32).reshape(1)
         new_ss = ss.replace(state=Out(acc.reshape(1), ss.state.f), rng=new_rng)
+        if getattr(self, "adaptive_params", False):
+            # a node that adapts its own params online (e.g. a gain estimate): the params it RETURNS are the params of its next step, in both runtimes
+            new_ss = new_ss.replace(params=Out(((ss.params.a + 1 + sq) % 97).astype(jnp.int32), ss.params.f))
         if getattr(self, "adaptive", False):
             # a node that updates the delay models it carries in its own inputs (e.g. online delay estimation): the step state it RETURNS is what the
             # next step must start from, whichever API path executed the step
@@ -129,6 +132,7 @@ def build(cfg):
                      scheduling=const.Scheduling.FREQUENCY if nd["sched"] == "FREQ" else const.Scheduling.PHASE, nid=nd["nid"])
         N[n].adaptive = bool(nd.get("adaptive", False))
         N[n].rng_params = bool(cfg.get("rng_params", False))
+        N[n].adaptive_params = bool(cfg.get("adaptive_params", False))
     for c, cc in cfg["conns"].items():
         N[cc["in"]].connect(N[cc["out"]], blocking=cc["blocking"], delay=cc["exp"] * T, delay_dist=TableDist.create(cc["delays"]),
                             window=cc["window"], skip=cc["skip"],
@@ -165,13 +169,14 @@ def canon_record(cfg, r, rec):
         # the recorded scheduling terms of AsyncStepRecord
         for fld in ("ts_scheduled", "ts_max", "ts_end_prev", "phase", "phase_scheduled", "phase_inputs", "phase_last"):
             if hasattr(st, fld) and getattr(st, fld) is not None: cols[fld] = tick(getattr(st, fld))
-        if rec.get("state", True) and st.state is not None: cols["state"] = [int(a) for a in onp.asarray(st.state.a)[:, 0]]
-        if rec.get("output", True) and st.output is not None:
+        # a part is reported when it IS in the record (whether it was asked for is judged by the check, per node)
+        if st.state is not None: cols["state"] = [int(a) for a in onp.asarray(st.state.a)[:, 0]]
+        if st.output is not None:
             oa = onp.asarray(st.output.a)
             cols["out"] = [int(a) for a in oa[:, 0]]
-        if rec.get("rng", False) and st.rng is not None:
+        if st.rng is not None:
             rw = rngwords(st.rng); cols["rng"] = [[int(x) for x in row[:2]] for row in rw]
-        if rec.get("inputs", False) and st.inputs is not None:
+        if st.inputs is not None:
             wins = []
             for k in range(T_):
                 w = {}
